@@ -177,6 +177,8 @@ theorem run_cases (T : Target) (now : Nat) :
   split
   · exact .inl rfl
   split
+  · exact .inl rfl
+  split
   · right; unfold Target.endLoop; split <;> exact ⟨rfl, [], List.nil_sublist _, by simp [Target.exitWith]⟩
   · right
     split
@@ -224,6 +226,8 @@ theorem DInv.step {s : State} (h : DInv s) (hi : Inv s) (op : Op) : DInv (Timers
     · exact ⟨h.nodup, h.exit_mbox⟩
     · exact ⟨h.nodup, h.exit_mbox⟩
   | hold => exact ⟨h.nodup, h.exit_mbox⟩
+  | startHold => exact ⟨h.nodup, h.exit_mbox⟩
+  | started => exact ⟨h.nodup, h.exit_mbox⟩
   | psrelease =>
     have e : Timers.step s .psrelease = { s with target := s.target.release s.now } := rfl
     rw [e]
